@@ -63,14 +63,34 @@ def check_program(calls, assign, split, version, dest, index):
     return ('valid', None) if why is None else ('invalid', why)
 
 
+def writer_states(calls, split):
+    """abstract writer states (root written?, groups declared so far in this session) a program passes through"""
+    out = set()
+    nc = len(calls)
+    sessions = [list(range(nc))] if not split or nc < 2 else [list(range(split)), list(range(split, nc))]
+    for sess in sessions:
+        st = (False, frozenset())
+        out.add(repr((st[0], sorted(st[1]))))
+        for ci in sess:
+            groups = set(st[1])
+            for o in calls[ci]:
+                if o[0] in ('G', 'C', 'C*'):
+                    groups.add(o[1])
+            st = (True, frozenset(groups))
+            out.add(repr((st[0], sorted(st[1]))))
+    return out
+
+
 def _worker(item):
     first, depth, ai, seed = item
     shapes = W.call_shapes()
     assign = W.assignments()[ai]
-    res = {'counters': {'programs': 0, 'nontrivial': 0, 'with_index': 0}, 'outcomes': {}, 'violations': [], 'samples': []}
+    res = {'counters': {'programs': 0, 'nontrivial': 0, 'with_index': 0}, 'outcomes': {}, 'violations': [], 'samples': [], 'distinct': set()}
 
     def rec(seq):
         calls = [shapes[i] for i in seq]
+        for sp in [0] + list(range(1, len(seq))):
+            res['distinct'] |= writer_states(calls, sp)
         for version in (4712, 4713):
             for dest in ('stream', 'path'):
                 for split in [0] + list(range(1, len(seq))):
@@ -113,7 +133,7 @@ def run(ctx):
         vac.append('no program wrote an index file')
     if not (m['outcomes'].get('valid') or m['outcomes'].get('invalid')):
         vac.append('no accepted program')
-    cov = {'states': 5, 'transitions': c['programs'], 'traces_validated_against_impl': c['programs'],
+    cov = {'states': len(m['distinct']), 'transitions': c['programs'], 'traces_validated_against_impl': c['programs'],
            'evaluations': c['programs'], 'distinct_nontrivial': c['nontrivial'],
            'rule': 'distinct programs = (kind assignment, call sequence, session split, version, destination, index on/off); '
                    'non-trivial = accepted and writing at least one channel',
